@@ -554,7 +554,13 @@ def run(ctx):
             if isinstance(x_._parent, ast.If):
                 encl.append(x_._parent.test)
             x_ = x_._parent
-        on_item = [tt for tt in encl if any(isinstance(x, ast.Attribute) and isinstance(x.value, ast.Name) and x.value.id in bis and x.attr != STATUS for x in ast.walk(tt))]
+        # locals that hold a field of the item other than its status (response_operation = batch_item.operation.value)
+        item_locals = set()
+        for a_ in [x for x in walk_local(srp) if isinstance(x, ast.Assign) and len(x.targets) == 1 and isinstance(x.targets[0], ast.Name)]:
+            if any(isinstance(x, ast.Attribute) and isinstance(x.value, ast.Name) and x.value.id in bis and x.attr != STATUS for x in ast.walk(a_.value)):
+                item_locals.add(a_.targets[0].id)
+        on_item = [tt for tt in encl if any((isinstance(x, ast.Attribute) and isinstance(x.value, ast.Name) and x.value.id in bis and x.attr != STATUS)
+                                            or (isinstance(x, ast.Name) and x.id in item_locals) for x in ast.walk(tt))]
         if not on_item:
             continue
         n_pre += 1
